@@ -252,6 +252,10 @@ def check(run):
                 r = res()
             except InvalidRangeError:
                 continue
+            except Exception as ex:
+                run.violation('%s on valued references raised %s' % (op, type(ex).__name__),
+                              {'op': 'value-' + op, 'a': fmts(A), 'b': fmts(B)})
+                continue
             areas = [canon(x) for x in r.ranges]
             if op == 'bbox' and not all(small(x) for x in areas):
                 continue
@@ -292,9 +296,23 @@ def check(run):
                                   {'op': 'value-' + op, 'a': fmts(A), 'b': fmts(B), 'areas': fmts(areas),
                                    'impl': repr(sorted(got.elements()))[:300]})
 
+    def guarded(f, *args):
+        try:
+            f(*args)
+        except common.HarnessError:
+            raise
+        except Exception as ex:     # the implementation raised where the property promises a result
+            import traceback
+            tb = traceback.extract_tb(ex.__traceback__)
+            where = [t for t in tb if '/harness/' not in t.filename]
+            if not where:
+                raise
+            run.violation('implementation raised %s: %s' % (type(ex).__name__, str(ex)[:120]),
+                          {'op': 'exception', 'args': repr(args)[:300], 'at': '%s:%d' % (where[-1].filename, where[-1].lineno)})
+
     for a in rects:
         for b in rects:
-            pair_case(a, b)
+            guarded(pair_case, a, b)
     run.exhaustive = True
     run.sample({'op': 'pair', 'a': fmt(rects[7]), 'b': fmt(rects[len(rects) // 2]),
                 'split_impl': fmts([canon(p) for p in _split(R(rects[7]), R(rects[len(rects) // 2]))])})
@@ -327,7 +345,7 @@ def check(run):
         whole = any(x[1] == 0 or x[3] == 0 for x in A + B)
         multi = len({x[0] for x in A + B}) > 1
         rel = 'multi-area' + ('/whole' if whole else '') + ('/sheets' if multi else '')
-        area_case(A, B, rel, True)
+        guarded(area_case, A, B, rel, True)
         if i < 3:
             run.sample({'op': 'areas', 'a': fmts(A), 'b': fmts(B)})
 
